@@ -23,7 +23,7 @@ EXPLANATION = ("Real add_iteration, Trace._filter_irrelevant_gpu_kernels, Trace.
                "non-negative iterations present. Non-trivial path = admits a dropped and a kept event (>= 2 steps) or an "
                "event inside and one outside a step.")
 ASSUMPTIONS = ["WF: host events (steps included) pairwise nested or disjoint, steps pairwise disjoint, unique correlation "
-               "ids, device streams positive", "kernel.ts >= launch.ts", "multi-rank: every rank has the same step numbers",
+               "ids, device streams positive", "kernel.ts >= launch.ts is NOT assumed", "multi-rank: every rank has the same step numbers",
                "JSON reading stubbed"]
 STUBS = ["hta.common.trace_parser.parse_trace_dict", "Trace._validate_trace_files", "plotly", "logging"]
 STEP0 = 5
@@ -96,7 +96,7 @@ def run(ctx):
                                steps[b]["ts"] + steps[b]["dur"] <= steps[a]["ts"]))
         for d in devs:
             if d["launch"] is not None:
-                ctx.assume(d["ts"] >= d["launch"]["ts"])
+                pass      # kernel.ts >= launch.ts is not assumed: the quantifier does not ask for causal consistency
     ta = ctx.open(events, include_last_profiler_step=inc)
     trims = sk["nsteps"] >= 2
     nontriv = False
